@@ -295,7 +295,8 @@ def run_case(case):
             if obs[:len(longest)] != longest:
                 what, i = divergence(longest)
                 viol(("trace:%s" if what.startswith("missing-effect") else "trace-before-undefined-call:%s") % what, "observed %r, expected prefix %r; %s" % (obs, longest, where))
-        elif sim.cycle_in_watch and not (state == "Paused" and status == "Error" and err_line in {a[1] for a in accepted}):
+        elif sim.cycle_in_watch and not (state == "Paused" and status == "Error"
+                                         and any(a[0] == obs and (a[1] == err_line or a[1] in failed_ids) for a in accepted)):
             # the recursive chain runs in a Watch body: when it does not fail, the main thread continues on its own (and may
             # collide with the hanging invocation), so only the missing failure is reported
             viol("cycle-not-failed:%s" % sim.cycle_cls,
@@ -319,8 +320,11 @@ def run_case(case):
             else:
                 lines_ok = {a[1] for a in match}
                 if match[-1][2] != "undefined" and err_line not in lines_ok and not (set(failed_ids) & lines_ok):
-                    viol("cycle-wrong-line-failed", "run failed at line %r (failed lines %r) but the accepted failing calls are %r; %s"
-                         % (err_line, failed_ids, sorted(lines_ok), where))
+                    # the run stopped with an error, but not at the call whose preceding effects were observed: the chain was
+                    # entered further than the failing line admits (same root cause class as a cycle that is not detected)
+                    viol("cycle-wrong-line-failed:%s" % sim.cycle_cls,
+                         "run failed at line %r (failed lines %r) but with these effects the failing call must be %r; effects %r; %s"
+                         % (err_line, failed_ids, sorted(lines_ok), obs, where))
     return out, info
 
 
